@@ -30,8 +30,8 @@ MANIFEST = {
              "outside the proof: 'never raises on any DTD-free text' is carried by the byte-level mutation stream; variables "
              "are string/ui2/boolean typed and get valid values (invalid values are C10's subject); entry names LastChange, "
              "CurrentTrackMetaData, AVTransportURIMetaData are not generated (recursive expansion / DIDL parsing are outside "
-             "the model); instance ids are non-empty (an InstanceID with val=\"\" is treated as instance 0 by the code: "
-             "`current or \"0\"`, reported in design/C19.md); lone surrogates cannot occur in text that came out of an XML parser."),
+             "the model); an entry outside any InstanceID element counts for instance 0 in the code (not expressible as an "
+             "abstract document; kept as a text corpus case); lone surrogates cannot occur in text that came out of an XML parser."),
     "technique": "Lean 4 proof (fold invariant, induction over documents) + model/implementation correspondence with recorded SAX events",
 }
 RULE = ("LastChange documents rendered from an abstract document (0..3 instances, 0..8 entries, channels {absent, Master, LF, "
@@ -43,7 +43,7 @@ RULE = ("LastChange documents rendered from an abstract document (0..3 instances
         "(mutations); distinct = distinct canonical driver text")
 EXHAUSTIVE = {"quick": False, "thorough": False}
 ASSUMPTIONS = [
-    "instance ids are non-empty; local names and prefixes contain no colon; the root element carries no val attribute; an unprefixed entry is not named InstanceID (WF in Props/C19.lean)",
+    "local names and prefixes contain no colon; the root element carries no val attribute; an unprefixed entry is not named InstanceID (WF in Props/C19.lean)",
     "service variables are string (any value), ui2 and boolean (valid canonical values only)",
     "entries are not named LastChange / CurrentTrackMetaData / AVTransportURIMetaData",
     "event values are str without lone surrogates and without DTD declarations",
@@ -138,7 +138,7 @@ VALUE_ALPHABET = list("abcXYZ019 .-_:/") + ["&", "<", ">", '"', "'", "é", "漢"
 UNKNOWN_NAMES = ["Bogus", "X_Other", "volume", "A-b.c_d", "Événement"]
 PREFIXES = [None, None, None, "rcs", "avt", "p1", "x-y"]
 CHANNELS = [None, None, None, "Master", "Master", "LF", "RF", "", "master"]
-IDS = ["0", "0", "0", "1", "2", "3", "10", "4294967295"]
+IDS = ["0", "0", "0", "0", "1", "2", "3", "10", "4294967295", "", "00"]
 
 
 def gen_value(rng: random.Random, dtype: str) -> str:
@@ -200,7 +200,10 @@ def render(doc: Dict[str, Any]) -> str:
             out.append(f"{rng.choice([' ', ' ', '  ', chr(10)])}{k}{eq}{q}{esc(rng, v, q)}{q}")
         return "".join(out) + rng.choice(["", "", " "])
 
-    parts = [rng.choice(["", "", '<?xml version="1.0"?>', '<?xml version="1.0" encoding="utf-8"?>\n'])]
+    # the text is a str: whatever encoding a declaration names, the values are the given ones
+    enc = rng.choice(["utf-8", "utf-8", "UTF-8", "iso-8859-1", "utf-16", "us-ascii", "windows-1252", "x-unknown"])
+    parts = [rng.choice(["", "", "", '<?xml version="1.0"?>', f'<?xml version="1.0" encoding="{enc}"?>\n',
+                         f"<?xml version='1.0' encoding='{enc}' standalone='yes'?>"])]
     parts.append(f"<Event{attrs([tuple(p) for p in doc['root']])}>")
     for inst in doc["ops"]:
         parts.append(ws())
@@ -367,6 +370,13 @@ CORPUS: List[Dict[str, Any]] = [
      "ops": [{"id": "0", "entries": [E("Volume", "1", None, "rcs"), E("Volume", "2", "Master", "x-y")]},
              {"id": "2", "entries": []}, {"id": "0", "entries": [E("Mute", "1", "Master")]}]},
     {"kind": "doc", "svc": "RC", "root": [], "style": 6, "ops": []},
+    # F19b: an instance whose id is the empty string is not instance 0
+    {"kind": "doc", "svc": "RC", "root": [], "style": 7, "ops": [{"id": "", "entries": [E("Volume", "6", "Master")]}]},
+    # F19a: declared encodings (styles 3, 9, 5 render iso-8859-1, x-unknown, utf-16; the value is non-ASCII)
+    {"kind": "doc", "svc": "AVT", "root": [], "style": 3, "ops": [{"id": "0", "entries": [E("CurrentTrackURI", "é漢")]}]},
+    {"kind": "doc", "svc": "AVT", "root": [], "style": 9, "ops": [{"id": "0", "entries": [E("CurrentTrackURI", "é漢")]}]},
+    {"kind": "doc", "svc": "AVT", "root": [], "style": 5, "ops": [{"id": "0", "entries": [E("CurrentTrackURI", "é漢")]}]},
+    {"kind": "text", "svc": "AVT", "text": "<?xml version=\"1.0\" encoding=\"iso-8859-1\"?><Event><InstanceID val=\"0\"><CurrentTrackURI val=\"é\"/></InstanceID></Event>"},
     {"kind": "empty", "svc": "RC"},
     {"kind": "text", "svc": "RC", "text": "<Event><InstanceID val=\"0\"><Volume val=\"3\"/>"},           # truncated
     {"kind": "text", "svc": "RC", "text": "<Event><InstanceID val=\"0\"><Volume val=\"3\"/></Event>"},   # unbalanced
@@ -375,7 +385,6 @@ CORPUS: List[Dict[str, Any]] = [
     # F19a: unknown encoding in the XML declaration (LookupError escaped the error handler)
     {"kind": "text", "svc": "RC", "text": "<?xml version=\"1.0\" encoding=\"tf-8\"?><Event><InstanceID val=\"0\"><Volume val=\"3\"/></InstanceID></Event>"},
     {"kind": "text", "svc": "RC", "text": "<Event><Volume val=\"4\"/></Event>"},              # entry outside any instance -> "0" (quirk)
-    {"kind": "text", "svc": "RC", "text": "<Event><InstanceID val=\"\"><Volume val=\"6\"/></InstanceID></Event>"},  # empty id -> "0" (quirk)
 ]
 
 
@@ -388,8 +397,8 @@ def _chunk(args):
 
 def generate(ctx: Ctx) -> List[Case]:
     rng = ctx.rng
-    n_docs = 30000 if ctx.thorough else 2000
-    n_mut = 150000 if ctx.thorough else 5000
+    n_docs = 40000 if ctx.thorough else 2000
+    n_mut = 200000 if ctx.thorough else 5000
     if ctx.thorough and getattr(ctx, "search", False):
         n_docs, n_mut = 10000, 30000
     jobs: List[Tuple[dict, str]] = [(rec, f"corpus{i}") for i, rec in enumerate(CORPUS)]
